@@ -358,9 +358,21 @@ func (c *wsConn) cancelCtx(req frame) {
 		return
 	}
 
+	if len(params) < 1 {
+		log.Errorf("%s: missing request id parameter", wsCancel)
+		return
+	}
+
 	var id interface{}
 	if err := json.Unmarshal(params[0].data, &id); err != nil {
 		log.Error("handle me:", err)
+		return
+	}
+
+	// only string / number / null ids exist (and only those are hashable)
+	id, err := normalizeID(id)
+	if err != nil {
+		log.Errorf("%s: %s", wsCancel, err)
 		return
 	}
 
@@ -382,6 +394,11 @@ func (c *wsConn) handleChanMessage(frame frame) {
 	var params []param
 	if err := json.Unmarshal(frame.Params, &params); err != nil {
 		log.Error("failed to unmarshal channel id in xrpc.ch.val: %s", err)
+		return
+	}
+
+	if len(params) < 2 {
+		log.Errorf("%s: expected channel id and value parameters, got %d", chValue, len(params))
 		return
 	}
 
@@ -411,6 +428,11 @@ func (c *wsConn) handleChanClose(frame frame) {
 	var params []param
 	if err := json.Unmarshal(frame.Params, &params); err != nil {
 		log.Error("failed to unmarshal channel id in xrpc.ch.val: %s", err)
+		return
+	}
+
+	if len(params) < 1 {
+		log.Errorf("%s: missing channel id parameter", chClose)
 		return
 	}
 
